@@ -52,8 +52,9 @@ func (p *InsertionParameters) ComputeInputHashInsertion() error {
 		return err
 	}
 	data = append(data, buf.Bytes()...)
-	data = append(data, p.PreRoot.Bytes()...)
-	data = append(data, p.PostRoot.Bytes()...)
+	// roots are hashed as fixed-width 32-byte words, as in the circuit and on-chain
+	data = append(data, p.PreRoot.FillBytes(make([]byte, 32))...)
+	data = append(data, p.PostRoot.FillBytes(make([]byte, 32))...)
 	for _, v := range p.IdComms {
 		idBytes := v.Bytes()
 		// extend to 32 bytes if necessary, maintaining big-endian ordering
